@@ -239,6 +239,9 @@ class WSStream:
         elif isinstance(event, (Body, Data)) and not self.handshake.accepted:
             self.closed = True
             await self._send_error_response(400)
+            await self.app_put(
+                {"type": "websocket.disconnect", "code": CloseReason.ABNORMAL_CLOSURE.value}
+            )
         elif isinstance(event, (Body, Data)):
             self.connection.receive_data(event.data)
             await self._handle_events()
